@@ -17,6 +17,7 @@ The last clause was false for the code before /repo commit b4f59e3 (defect D8: a
 import GluonModel.Chan
 import GluonModel.Proofs.Chan
 import GluonModel.Proofs.ChanThreads
+import GluonModel.Proofs.ChanProgram
 
 namespace GluonModel.Props.C17
 open GluonModel.Chan
@@ -223,6 +224,44 @@ theorem program_chan_fifo (d : Decls) (cells : Nat → Int) (th : Nat → TSt) (
   rw [this]
   simp
 
+/-- In the observation log of ANY program (any thread bodies and schedule) every logged `load` of cell
+    `r` shows the value of the latest `store` into `r` logged before it (the initial value if none),
+    whichever threads did the two. -/
+theorem program_ref_last_write (d : Decls) (cells : Nat → Int) (th : Nat → TSt) (fuel tid : Nat)
+    (ops : List Op) (r : Nat) :
+    let s := (runOps d fuel tid ops { p := PState.init cells, th := th, log := [] }).1
+    LoadsOk r (cells r) s.log ∧ s.p.cells r = lastStoreLog r (cells r) s.log := by
+  have h0 : RefInv cells { p := PState.init cells, th := th, log := [] } := by
+    intro r; simp [PState.init, lastStoreLog, LoadsOk]
+  have := runOps_refInv d cells fuel tid ops _ h0 r
+  exact ⟨this.2, this.1⟩
+
+/-- In the observation log of ANY program, all values reported by forces of the same lazy agree. -/
+theorem program_forces_agree (d : Decls) (cells : Nat → Int) (th : Nat → TSt) (fuel tid : Nat)
+    (ops : List Op) (k : Nat) (e₁ e₂ : Ev)
+    (h₁ : e₁ ∈ (runOps d fuel tid ops { p := PState.init cells, th := th, log := [] }).1.log)
+    (h₂ : e₂ ∈ (runOps d fuel tid ops { p := PState.init cells, th := th, log := [] }).1.log)
+    (k₁ : e₁.kind = 8) (k₂ : e₂.kind = 8) (a₁ : e₁.a = (k : Int)) (a₂ : e₂.a = (k : Int)) :
+    e₁.b = e₂.b := by
+  have h0 : ForcesInv { p := PState.init cells, th := th, log := [] } := by
+    intro e he; simp at he
+  have hi := runOps_forcesInv d fuel tid ops _ h0
+  have v₁ := hi e₁ h₁ k₁ k a₁
+  have v₂ := hi e₂ h₂ k₂ k a₂
+  rw [v₁] at v₂
+  exact (LState.value.inj v₂)
+
+/-- In the observation log of ANY program the computation of lazy `k` is started at most once. -/
+theorem program_lazy_runs_at_most_once (d : Decls) (cells : Nat → Int) (th : Nat → TSt) (fuel tid : Nat)
+    (ops : List Op) (k : Nat) :
+    (runOps d fuel tid ops { p := PState.init cells, th := th, log := [] }).1.log.countP (isRun k) ≤ 1 := by
+  have h0 : RunsLogInv { p := PState.init cells, th := th, log := [] } := by
+    refine ⟨by intro k; simp [PState.init], by intro k; simp [PState.init]⟩
+  have hi := runOps_runsLogInv d fuel tid ops _ h0
+  have := hi.1 k
+  rw [hi.2 k]
+  omega
+
 /-! ## Non-vacuity: concrete instances -/
 
 def exDecls : Decls := fun k => if k = 0 then .val 42 else if k = 1 then .boom else if k = 2 then .add 2 1 else .val 0
@@ -265,6 +304,7 @@ example : exProg.log.reverse.map (fun e => (e.tid, e.kind, e.a, e.b)) =
     [(1, 1, 0, 11), (1, 14, 0, 0), (0, 11, 1, 0), (0, 3, 0, 11), (0, 4, 0, 0),
      (1, 1, 0, 12), (0, 11, 1, 0), (0, 3, 0, 12), (0, 12, 1, 0)] := by decide
 example : sentLog 0 exProg.log = [11, 12] ∧ gotLog 0 exProg.log = [11, 12] := by decide
+example : exProg.log.countP (isRun 0) = 0 := by decide
 -- hypothesis of `resume_continues_after_last_yield`
 example : (runOps exDecls 99 1 [.prim (.send 0 11), .yield, .prim (.send 0 12)]
     { p := PState.init (fun _ => 0), th := fun _ => .done, log := [] }).2 matches .yielded [.prim (.send 0 12)] := by
